@@ -128,25 +128,25 @@ UNIT = dict(
     postlude=POST,
     proofs=[
         dict(name='itoa_int_pos', harness='h_itoa_int', unwind=13, properties=['C08', 'C01'], cc_flags=['-DSIGN_POS'],
-             solvers=['kissat', 'cadical'], timeout=dict(quick=400, thorough=900), floor=4),
+             solvers=['kissat', 'cadical'], timeout=dict(quick=900, thorough=1500), floor=4),
         dict(name='itoa_int_neg', harness='h_itoa_int', unwind=13, properties=['C08', 'C01'], cc_flags=['-DSIGN_NEG'],
-             solvers=['kissat', 'cadical'], timeout=dict(quick=400, thorough=900), floor=4),
+             solvers=['kissat', 'cadical'], timeout=dict(quick=900, thorough=1500), floor=4),
         dict(name='itoa_uint', harness='h_itoa_uint', unwind=13, properties=['C08', 'C01', 'C02'],
-             solvers=['kissat', 'cadical'], timeout=dict(quick=300, thorough=900), floor=4),
+             solvers=['kissat', 'cadical'], timeout=dict(quick=900, thorough=1500), floor=4),
         dict(name='atoi_int', harness='h_atoi_int', unwind=13, properties=['C08', 'C01'],
-             solvers=['cadical', 'kissat'], timeout=dict(quick=300, thorough=900), floor=1),
+             solvers=['kissat', 'cadical'], timeout=dict(quick=900, thorough=1500), floor=1),
         dict(name='atoi_uint', harness='h_atoi_uint', unwind=13, properties=['C08', 'C01'],
-             solvers=['cadical', 'kissat'], timeout=dict(quick=300, thorough=900), floor=1),
+             solvers=['cadical', 'kissat'], timeout=dict(quick=900, thorough=1500), floor=1),
         dict(name='atoi_ushort', harness='h_atoi_ushort', unwind=13, properties=['C08', 'C04'],
-             solvers=['cadical', 'kissat'], timeout=dict(quick=300, thorough=900), floor=1),
+             solvers=['cadical', 'kissat'], timeout=dict(quick=900, thorough=1500), floor=1),
         dict(name='rt_int_modular', harness='h_rt_int_modular', replace=['itoa_int', 'fast_atoi_int'], unwindset=UW,
-             properties=['C08', 'C01'], solvers=['cadical', 'kissat'], timeout=dict(quick=300, thorough=900), floor=1),
+             properties=['C08', 'C01'], solvers=['cadical', 'kissat'], timeout=dict(quick=900, thorough=1500), floor=1),
         dict(name='rt_int_pos', harness='h_rt_int', unwind=13, properties=['C08', 'C01'], tier='thorough',
-             solvers=['kissat', 'cadical'], timeout=dict(quick=300, thorough=1200), floor=1),
+             solvers=['kissat', 'cadical'], timeout=dict(quick=900, thorough=1500), floor=1),
         dict(name='rt_int_neg', harness='h_rt_int', unwind=13, properties=['C08', 'C01'], tier='thorough', cc_flags=['-DSIGN_NEG'],
-             solvers=['kissat', 'cadical'], timeout=dict(quick=300, thorough=1200), floor=1),
+             solvers=['kissat', 'cadical'], timeout=dict(quick=900, thorough=1500), floor=1),
         dict(name='rt_uint', harness='h_rt_uint', unwind=13, properties=['C08', 'C01'], tier='thorough',
-             solvers=['kissat', 'cadical'], timeout=dict(quick=300, thorough=1200), floor=1),
+             solvers=['kissat', 'cadical'], timeout=dict(quick=900, thorough=1500), floor=1),
     ],
     trusted_base=['spec_val/spec_canon (12-line strtol-style oracle in specs/k_int.py)', 'CBMC built-in strlen model'],
     assumptions=['itoa is only called with base 10 (checked at the call sites that are under contract)'],
